@@ -13,9 +13,12 @@ package main
 // two shards; nil error only if merged / exploded) directly on the directory.
 
 import (
+	"bytes"
 	"crypto/sha1"
+	"encoding/json"
 	"fmt"
 	"os"
+	"os/exec"
 	"path/filepath"
 	"regexp"
 	"sort"
@@ -840,4 +843,114 @@ func TestVerifC35(t *testing.T) {
 		}
 	}
 	vfInfo(map[string]any{"cases": emitted})
+	c35CommandChecks(t)
+}
+
+// ---- the real command as a sub-process: the test binary re-executes itself and calls main() with the
+// command line in C35_CHILD_ARGS, under a zzfs plan from ZZFS_PLAN (kill mode "exit" = os.Exit(137)).
+
+func TestVerifC35Child(t *testing.T) {
+	args := os.Getenv("C35_CHILD_ARGS")
+	if args == "" {
+		t.Skip("helper")
+	}
+	var a []string
+	if err := json.Unmarshal([]byte(args), &a); err != nil {
+		panic(err)
+	}
+	os.Args = append([]string{"zoekt-merge-index"}, a...)
+	main()
+	os.Exit(0)
+}
+
+func c35RunCmd(t *testing.T, plan *zzfs.Plan, args ...string) (int, string) {
+	a, _ := json.Marshal(args)
+	cmd := exec.Command(os.Args[0], "-test.run=TestVerifC35Child$")
+	cmd.Env = append(os.Environ(), "C35_CHILD_ARGS="+string(a))
+	if plan != nil {
+		p, _ := json.Marshal(plan)
+		cmd.Env = append(cmd.Env, "ZZFS_PLAN="+string(p))
+	}
+	var out bytes.Buffer
+	cmd.Stdout = &out
+	err := cmd.Run()
+	code := 0
+	if ee, ok := err.(*exec.ExitError); ok {
+		code = ee.ExitCode()
+	} else if err != nil {
+		t.Fatalf("harness: cannot run child: %v", err)
+	}
+	return code, out.String()
+}
+
+// exit status and stdout of the real command vs. the directory
+func c35CommandChecks(t *testing.T) {
+	mk := func() (string, *c35Init, *c35Scenario) {
+		dir, err := os.MkdirTemp(os.Getenv("VERIF_TMP"), "c35cmd-")
+		if err != nil {
+			t.Fatal(err)
+		}
+		sc := &c35Scenario{simples: []c35Meta{{1, 10, false}, {2, 20, false}}}
+		return dir, c35Setup(t, dir, sc), sc
+	}
+	report := func(key, what string, extra map[string]any) { vfOracleFail("command:"+key, what, extra) }
+	n := 0
+	// 1. plain merge: exit 0, prints the compound path, inputs gone
+	{
+		dir, in, _ := mk()
+		code, out := c35RunCmd(t, nil, "merge", filepath.Join(dir, "r1_v16.00000.zoekt"), filepath.Join(dir, "r2_v16.00000.zoekt"))
+		alive := c35Alive(c35Observe(t, dir, in))
+		want := c35Compound([]int{2, 1}).file()
+		if code != 0 || strings.TrimSpace(out) != filepath.Join(dir, want) || len(alive[1]) != 1 || alive[1][0] != want || len(alive[2]) != 1 {
+			report("merge-ok", fmt.Sprintf("exit=%d stdout=%q alive=%v", code, out, alive), map[string]any{"args": "merge r1 r2"})
+		}
+		os.RemoveAll(dir)
+		n++
+	}
+	// 2. a missing input: must exit non-zero and print no path
+	{
+		dir, in, _ := mk()
+		code, out := c35RunCmd(t, nil, "merge", filepath.Join(dir, "r1_v16.00000.zoekt"), filepath.Join(dir, "nope.zoekt"))
+		alive := c35Alive(c35Observe(t, dir, in))
+		if code == 0 || strings.TrimSpace(out) != "" || len(alive[1]) != 1 {
+			report("merge-missing-input", fmt.Sprintf("exit=%d stdout=%q alive=%v: success reported although nothing was merged", code, out, alive), map[string]any{"args": "merge r1 nope"})
+		}
+		os.RemoveAll(dir)
+		n++
+	}
+	// 3. killed (os.Exit(137)) before each mutation of a merge: never two shards for one repo
+	for k := 0; k < 6; k++ {
+		dir, in, _ := mk()
+		plan := &zzfs.Plan{Kill: &zzfs.Sel{Seq: -1, Kind: "*", Occ: k}, MutOnly: true}
+		code, out := c35RunCmd(t, plan, "merge", filepath.Join(dir, "r1_v16.00000.zoekt"), filepath.Join(dir, "r2_v16.00000.zoekt"))
+		alive := c35Alive(c35Observe(t, dir, in))
+		for id, fs := range alive {
+			if len(fs) > 1 {
+				report("merge-kill-duplicate", fmt.Sprintf("killed before mutation %d: r%d alive in %v", k, id, fs), map[string]any{"kill": k})
+			}
+		}
+		if code != 137 || strings.TrimSpace(out) != "" {
+			report("merge-kill-status", fmt.Sprintf("killed before mutation %d: exit=%d stdout=%q", k, code, out), map[string]any{"kill": k})
+		}
+		os.RemoveAll(dir)
+		n++
+	}
+	// 4. explode with a directory on a simple shard's name: must exit non-zero
+	{
+		dir, err := os.MkdirTemp(os.Getenv("VERIF_TMP"), "c35cmd-")
+		if err != nil {
+			t.Fatal(err)
+		}
+		sc := &c35Scenario{compounds: [][]c35Meta{{{1, 10, false}, {2, 20, false}}}, dirPaths: []c35Path{{0, c35Simple(1)}}}
+		in := c35Setup(t, dir, sc)
+		comp := c35Compound([]int{2, 1}).file()
+		code, _ := c35RunCmd(t, nil, "explode", filepath.Join(dir, comp))
+		alive := c35Alive(c35Observe(t, dir, in))
+		if code == 0 && len(alive[1]) == 0 {
+			report("explode-rename-obstacle", fmt.Sprintf("exit=0 although r1 is in no shard afterwards (alive=%v)", alive), map[string]any{"args": "explode compound", "obstacle": "directory r1_v16.00000.zoekt"})
+		}
+		os.RemoveAll(dir)
+		n++
+	}
+	vfInfo(map[string]any{"command_runs": n})
 }
